@@ -120,6 +120,12 @@ func isIdentityrefSimpleFormValid(path []string, sn schema.Node, val string) (st
 
 	simpleform := strings.TrimPrefix(val, modPrfx)
 
+	// The simple form is a bare identity name; what is left of
+	// "module:other:name" is still qualified and is not a form of val
+	if strings.Contains(simpleform, ":") {
+		return "", false
+	}
+
 	// check that possible simpleform value
 	// is a valid identityref value
 	if matchIdentityref(path, sn.Type(), simpleform) {
